@@ -199,7 +199,22 @@ def _modes(names):
     return [GenerationMode.POSITIVE if n == "positive" else GenerationMode.NEGATIVE for n in names]
 
 
-def observe(desc: dict) -> dict:
+def observe_history(desc: dict) -> list[dict]:
+    """A history descriptor: the operations' coverage cases are generated one after the other in THIS process (which must be fresh)."""
+    return [observe(op, modesets=(("positive", "negative"), ("positive",))) for op in desc["ops"]]
+
+
+def fresh_pmap(fn, items: list) -> list:
+    """Like common.pmap, but every item runs in a process of its own (forked from this one, which has generated nothing)."""
+    import multiprocessing as mp
+
+    if not items:
+        return []
+    with mp.get_context("fork").Pool(common.NPROC, maxtasksperchild=1) as pool:
+        return pool.map(fn, items, chunksize=1)
+
+
+def observe(desc: dict, modesets=MODESETS) -> dict:
     """Run the coverage generators on one descriptor; returns {"op": declared op, "schema": .., "values": [...], "cases": [...], "errors": [...]}"""
     out: dict = {"values": [], "cases": [], "errors": []}
     try:
@@ -215,7 +230,7 @@ def observe(desc: dict) -> dict:
         out["errors"].append("load:%s:%s" % (type(exc).__name__, str(exc)[:120]))
         return out
     seen = set()
-    for ms in MODESETS:
+    for ms in modesets:
         if desc["kind"] == "schema":
             try:
                 body = operation.body[0]
@@ -366,7 +381,8 @@ def value_signature(rule: str, description: str, detail: Any, desc: dict) -> str
 
 
 def case_signature(rule: str, description: str, detail: Any, desc: dict) -> str:
-    parts = [t for t in _detail_set(detail) if isinstance(t, list) and len(t) == 3]
+    case_label = next((t[2] for t in _detail_set(detail) if isinstance(t, list) and len(t) == 3 and t[0] == "case"), "?")
+    parts = [t for t in _detail_set(detail) if isinstance(t, list) and len(t) == 3 and t[0] != "case"]
     cls = lambda names: "+".join(sorted({"body" if n == "body" else "param" for n in names})) or "-"  # noqa: E731
     kind = "method" if description.startswith("Unspecified HTTP method") else "missing" if description.startswith("Missing `") else \
         "duplicate" if description.startswith("Duplicate `") else "value"
@@ -374,6 +390,8 @@ def case_signature(rule: str, description: str, detail: Any, desc: dict) -> str:
         return "C03:case:case-label-lags-part-label:" + cls(t[0] for t in parts if t[1] == "F" and t[2] == "negative")
     if any(t[1] == "F" and t[2] == "none" for t in parts) and rule in ("case-positive-something-invalid", "part-positive-invalid"):
         return "C03:case:required-part-absent:" + cls(t[0] for t in parts if t[1] == "F" and t[2] == "none")
+    if rule == "part-negative-valid" and case_label == "positive":      # the case is presented as valid, one of its valid parts as invalid
+        return "C03:case:negative-part-label-in-positive-case:%s" % cls(t[0] for t in parts if t[1] == "T" and t[2] == "negative")
     if rule in ("part-negative-valid", "case-negative-nothing-invalid"):      # a negative label on content that is valid
         return "C03:case:negative-label-valid-part:%s" % cls(t[0] for t in parts if t[1] == "T" and t[2] == "negative")
     return "C03:case:%s:%s:%s:%s" % (rule, kind, cls(t[0] for t in parts if t[1] == "F" and t[2] == "positive"), primary(features(desc)))
@@ -436,9 +454,15 @@ def run(ctx: Ctx) -> Outcome:
     descs_o, res_o = enumerate_family("c03o", ctx.tier)
     _spec_violations("C03", res_s, out)
     _spec_violations("C03", res_o, out)
+    descs_h, res_h = enumerate_family("c03h", ctx.tier)
+    _spec_violations("C03", res_h, out)
     descs = descs_s + descs_o
     t1 = time.time()
     results = common.pmap(observe, descs)
+    for hd, hr in zip(descs_h, fresh_pmap(observe_history, descs_h)):       # histories: one fresh process each
+        for k, (od, r) in enumerate(zip(hd["ops"], hr)):
+            descs.append(dict(od, history=[_short(o)[:160] for o in hd["ops"][:k]], hist_desc=hd))
+            results.append(r)
     t_gen = time.time() - t1
     schemas, ops, obs, back = assemble(descs, results)
     dis, und, jres = judge(ctx, schemas, ops, obs)
@@ -459,8 +483,10 @@ def run(ctx: Ctx) -> Outcome:
             c = o["c"]
             summary = "%s: case labelled %s, parts %s, verdicts %s (%s; modes %s) for %s" % (
                 rule, c["labels"]["case"], {k: v for k, v in c["labels"].items() if k != "case" and v != "none"},
-                [tuple(t) for t in _detail_set(detail)], rec["description"], "+".join(rec["modes"]), _short(descs[di]))
-        out.violations.append(Violation(sig, summary, {"desc": descs[di], "index_kind": o["kind"], "rule": rule,
+                [tuple(t) for t in _detail_set(detail) if t[0] != "case"], rec["description"], "+".join(rec["modes"]), _short(descs[di]))
+        if descs[di].get("history"):
+            summary += " AFTER (same process) " + " ; ".join(descs[di]["history"])
+        out.violations.append(Violation(sig, summary, {"desc": descs[di].get("hist_desc") or descs[di], "index_kind": o["kind"], "rule": rule,
                                                        "description": rec["description"], "modes": rec["modes"]}))
     n_values = sum(1 for o in obs if o["kind"] == "value")
     nontrivial = len(obs) - len(und)
@@ -471,8 +497,8 @@ def run(ctx: Ctx) -> Outcome:
         samples.append({"descriptor": _short(descs[di])[:300], "kind": obs[j]["kind"], "description": rec["description"],
                         "label": obs[j].get("mode") or obs[j]["c"]["labels"], "rules": dis.get(j + 1, (["ok"],))[0]})
     out.coverage = {
-        "states": res_s.distinct + res_o.distinct, "transitions": res_s.generated + res_o.generated,
-        "schema_descriptors": len(descs_s), "operation_descriptors": len(descs_o),
+        "states": res_s.distinct + res_o.distinct + res_h.distinct, "transitions": res_s.generated + res_o.generated + res_h.generated,
+        "schema_descriptors": len(descs_s), "operation_descriptors": len(descs_o), "history_descriptors": len(descs_h),
         "groups": _count(d["group"] + "/" + d["dialect"] for d in descs),
         "traces_validated_against_impl": len(obs), "value_observations": n_values, "case_observations": len(obs) - n_values,
         "evaluations": len(obs), "distinct_nontrivial": nontrivial, "skipped_outside_fragment": len(und),
@@ -480,7 +506,7 @@ def run(ctx: Ctx) -> Outcome:
         "rule": "every descriptor reachable in GenData.tla (cfg GenData_c03s/c03o_%s: exhaustive inside each keyword group, pairwise across "
                 "location groups) x mode sets {p},{n},{p,n}; the generator is deterministic, so every value/case it yields is judged "
                 "(no sampling); non-trivial = the oracle gave a definite verdict for the value / some present part" % ctx.tier,
-        "exhaustive": True, "constants": {"cfg": ["GenData_c03s_%s.cfg" % ctx.tier, "GenData_c03o_%s.cfg" % ctx.tier], "modesets": [list(m) for m in MODESETS]},
+        "exhaustive": True, "constants": {"cfg": ["GenData_c03s_%s.cfg" % ctx.tier, "GenData_c03o_%s.cfg" % ctx.tier, "GenData_c03h_%s.cfg" % ctx.tier], "modesets": [list(m) for m in MODESETS]},
         "tlc_enumeration_s": round(res_s.wall_s + res_o.wall_s, 1), "generation_s": round(t_gen, 1), "tlc_judge_s": round(jres.wall_s, 1),
         "judge_states": jres.distinct,
     }
@@ -514,13 +540,17 @@ def replay(ctx: Ctx, data: dict) -> Outcome:
     if data.get("kind") == "spec":
         return out
     desc = data["desc"]
-    r = observe(desc)
-    schemas, ops, obs, back = assemble([desc], [r])
+    if desc["kind"] == "history":
+        rs = fresh_pmap(observe_history, [desc])[0]
+        ds = list(desc["ops"])
+    else:
+        rs, ds = [observe(desc)], [desc]
+    schemas, ops, obs, back = assemble(ds, rs)
     dis, _, _ = judge(ctx, schemas, ops, obs)
     for i, rule in [(i, r) for i in sorted(dis) for r in dis[i][0]]:
         detail = dis[i][1]
-        _, rec = back[i - 1]
-        sig = value_signature(rule, rec["description"], detail, desc) if obs[i - 1]["kind"] == "value" else case_signature(rule, rec["description"], detail, desc)
+        di, rec = back[i - 1]
+        sig = value_signature(rule, rec["description"], detail, ds[di]) if obs[i - 1]["kind"] == "value" else case_signature(rule, rec["description"], detail, ds[di])
         if rule == data["rule"] and rec["description"] == data["description"]:
             out.violations.append(Violation(sig, "%s (%s)" % (rule, rec["description"]), data))
     return out
